@@ -62,13 +62,17 @@ class MarkovChain(ABC):
         current_time = start_time
         end_time = start_time + run_time
 
+        steps_taken = 0
         while current_time < end_time:
             for i in range(update_interval):
                 self.take_step()
-            # set the interval such that updates are roughly once per second
+            # set the interval such that updates are roughly once per second,
+            # but always take at least one step between updates
             steps_taken = self.chain_length - start_length
             current_time = time()
-            update_interval = int(steps_taken / (current_time - start_time))
+            elapsed = current_time - start_time
+            if elapsed > 0:
+                update_interval = max(int(steps_taken / elapsed), 1)
             self.ProgressPrinter.countdown_progress(end_time, steps_taken)
         self.ProgressPrinter.countdown_final(run_time, steps_taken)
 
